@@ -34,6 +34,9 @@ pub struct Offer {
     /// minimum (a safe `&mut str` / `String` sink must stay valid even then;
     /// nothing else is expected of such a call)
     pub submin: bool,
+    /// a query-sized sink gets this much room *more* than the query asked for
+    /// ("at least the length returned by ..." - a roomier sink must do as well)
+    pub slack: u16,
     /// per-call choice of method (C05-C08 only): 0 = the session's own,
     /// 1 = replacing, 2 = non-replacing; and of output form: 0 = the
     /// session's own, 1 = UTF-8, 2 = UTF-16. The API allows a caller to mix
@@ -44,7 +47,7 @@ pub struct Offer {
 
 impl Offer {
     pub fn large() -> Offer {
-        Offer { cap: if crate::gen::tiny() { 96 } else { 1 << 14 }, kind: K_SLICE, fill: 0, phase: 0, dst_off: 0, src_off: 0, query: false, pipe_cut: 0, pipe_hold: 0, submin: false, method: 0, form: 0 }
+        Offer { cap: if crate::gen::tiny() { 96 } else { 1 << 14 }, kind: K_SLICE, fill: 0, phase: 0, dst_off: 0, src_off: 0, query: false, pipe_cut: 0, pipe_hold: 0, submin: false, method: 0, form: 0, slack: 0 }
     }
 }
 
@@ -115,6 +118,7 @@ pub struct Profile {
     /// the pump switches between replacing / non-replacing methods and
     /// between UTF-8 / UTF-16 output from call to call
     pub switch_methods: bool,
+    pub query_slack: bool,
 }
 
 impl Profile {
@@ -148,6 +152,7 @@ impl Profile {
             submin: false,
             submin_any_kind: false,
             switch_methods: false,
+            query_slack: false,
         }
     }
 }
@@ -230,10 +235,13 @@ impl<'a> PrngSource<'a> {
         } else {
             (0, 0)
         };
-        let mut o = Offer { cap, kind, fill, phase, dst_off, src_off, query, pipe_cut, pipe_hold, submin: false, method: 0, form: 0 };
+        let mut o = Offer { cap, kind, fill, phase, dst_off, src_off, query, pipe_cut, pipe_hold, submin: false, method: 0, form: 0, slack: 0 };
         if self.profile.switch_methods {
             o.method = self.rng.below(3) as u8;
             o.form = self.rng.below(3) as u8;
+        }
+        if o.query && self.profile.query_slack && self.rng.chance(1, 6) {
+            o.slack = self.rng.pick(&[1u16, 16, 100, 4093, 4096, 4097, 5000, 9000]);
         }
         if self.profile.submin && (kind == K_STR || kind == K_STRING || self.profile.submin_any_kind) && self.rng.chance(1, 5) {
             o.submin = true;
@@ -385,7 +393,7 @@ impl OpSource for ReplaySource {
 pub fn offer_to_json(o: &Offer) -> Value {
     json!({"cap": o.cap, "kind": o.kind, "fill": o.fill, "phase": o.phase,
            "dst_off": o.dst_off, "src_off": o.src_off, "query": o.query,
-           "pipe_cut": o.pipe_cut, "pipe_hold": o.pipe_hold, "submin": o.submin, "method": o.method, "form": o.form})
+           "pipe_cut": o.pipe_cut, "pipe_hold": o.pipe_hold, "submin": o.submin, "method": o.method, "form": o.form, "slack": o.slack})
 }
 
 fn offer_from_json(v: &Value) -> Option<Offer> {
@@ -402,6 +410,7 @@ fn offer_from_json(v: &Value) -> Option<Offer> {
         submin: v.get("submin").and_then(|x| x.as_bool()).unwrap_or(false),
         method: v.get("method").and_then(|x| x.as_u64()).unwrap_or(0) as u8,
         form: v.get("form").and_then(|x| x.as_u64()).unwrap_or(0) as u8,
+        slack: v.get("slack").and_then(|x| x.as_u64()).unwrap_or(0) as u16,
     })
 }
 
